@@ -38,3 +38,12 @@ Qed.
 (* without the alignment guard (the pinned builder) there are accepted sizes with misaligned pages *)
 Lemma unaligned_pagesize_refuted : exists P pid, 1024 <= P /\ P mod 8 <> 0 /\ (pid * P) mod 8 <> 0.
 Proof. exists 1025, 1. repeat split; vm_compute; discriminate. Qed.
+
+(* a header whose recorded page size differs from the one the database is opened with is refused (the documented
+   panic), whatever the other slot holds; open is a pure function of the file in the model: it issues no I/O *)
+Lemma wrong_pagesize_refused : forall P' m s2, m_psz m <> P' ->
+  exists why, select_slots P' (SlotValid m) s2 = SelPanic why.
+Proof.
+  intros P' m s2 H. apply N.eqb_neq in H.
+  destruct s2 as [| |m2]; cbn [select_slots]; rewrite ?H; cbn [negb]; eauto.
+Qed.
